@@ -121,8 +121,10 @@ def read_bytes(path):
     return data
 
 
-def parse_fastq(data):
-    """Strict four-line FASTQ. Returns list of (name, seq, qual). Raises Malformed."""
+def parse_fastq(data, strict=True):
+    """Strict four-line FASTQ. Returns list of (name, seq, qual). Raises Malformed.
+    strict=False: a record whose sequence and quality lengths differ is returned as it is (checks that compare
+    records with expected ones then report it as a difference)."""
     if isinstance(data, bytes):
         try:
             data = data.decode("ascii")
@@ -145,7 +147,7 @@ def parse_fastq(data):
             raise Malformed(f"record {i // 4}: third line does not start with +")
         if len(p) > 1 and p[1:] != h[1:]:
             raise Malformed(f"record {i // 4}: second header differs")
-        if len(s) != len(q):
+        if len(s) != len(q) and strict:
             raise Malformed(f"record {i // 4}: sequence and quality lengths differ")
         out.append((h[1:], s, q))
     return out
@@ -195,7 +197,7 @@ def read_records(path):
     data = read_bytes(path)
     fmt = detect_format(data)
     if fmt == "fastq":
-        return fmt, parse_fastq(data)
+        return fmt, parse_fastq(data, strict=False)
     if fmt == "fasta":
         return fmt, parse_fasta(data)
     if fmt == "empty":
@@ -236,3 +238,12 @@ def rmtree(d):
     import shutil
 
     shutil.rmtree(d, ignore_errors=True)
+
+
+def read_records_checked(path, V, sig, case):
+    """Like read_records(path)[1], but a file that does not parse becomes a violation (appended to V) and None is returned."""
+    try:
+        return read_records(path)[1]
+    except (Malformed, OSError, UnicodeDecodeError, EOFError, ValueError) as e:
+        V.append((sig, f"output file {os.path.basename(path)} does not parse: {type(e).__name__}: {e}", dict(case)))
+        return None
